@@ -650,6 +650,15 @@ def make_middleware(asgi):
 
 
 def w_responder(req, resp, **params):
+    cap = CUR['cap']
+    try:
+        _w_responder(req, resp, **params)
+    except BaseException as ex:  # noqa
+        cap['rexc'] = rec_exc(ex)       # what left the responder (observation for triage; the legs are not compared on it)
+        raise
+
+
+def _w_responder(req, resp, **params):
     s, cap = CUR['script'], CUR['cap']
     cap['digest'] = digest(req, params, CUR['probe'])
     cap['body'] = read_sync(req, s['read'])
@@ -666,6 +675,15 @@ def w_responder(req, resp, **params):
 
 
 async def a_responder(req, resp, **params):
+    cap = CUR['cap']
+    try:
+        await _a_responder(req, resp, **params)
+    except BaseException as ex:  # noqa
+        cap['rexc'] = rec_exc(ex)
+        raise
+
+
+async def _a_responder(req, resp, **params):
     s, cap = CUR['script'], CUR['cap']
     cap['digest'] = digest(req, params, CUR['probe'])
     cap['body'] = await read_async(req, s['read'])
@@ -1251,14 +1269,17 @@ def classify_wa(rec, req, cls, cw, ca, diffs):
         if w_ok and a_ok:
             used.append(K_INVALID_CL)
             explained.add('body')
-            if (ca.get('resp') or [None])[0] == 400 and req['script']['propagate']:
+            # the responders themselves ended differently for the same reason (a later handler may overwrite the 400)
+            if _has_exc(ca.get('rexc'), 'HTTPInvalidHeader') and not _has_exc(cw.get('rexc'), 'HTTPInvalidHeader'):
                 explained.update(('resp', 'trace'))
     cts = M.header_values(req, 'content-type')
     if cts and 'multipart/form-data' in cts[-1].lower() and not M.has_header(req, 'content-length'):
         # (6) multipart/form-data request without Content-Length: falcon/media/multipart.py MultipartForm.__init__
         #     asserts content_length is not None (WSGI only) -> AssertionError -> 500; ASGI builds the form lazily and
         #     answers MultipartParseError on iteration.  Undo: give the WSGI leg an explicit Content-Length: 0
-        if _has_exc(cw.get('body'), 'AssertionError') or (cw.get('resp') or [None])[0] == 500:
+        #     Evidence required: the AssertionError was seen in the WSGI leg (while reading, or leaving the responder -
+        #     the final status may be anything, a later handler can overwrite the 500); the undo experiment decides.
+        if _has_exc(cw.get('body'), 'AssertionError') or _has_exc(cw.get('rexc'), 'AssertionError'):
             alt = json.loads(json.dumps(req))
             alt['headers'].append(['content-length', '0'])
             ref = leg_w(alt)
@@ -1384,29 +1405,27 @@ def shrink(req, pair, sig, tries=80):
 
 
 def report(rec, req, findings):
+    """The verdict (known mechanism or not) is decided on the request exactly as it was generated, so it cannot depend on
+    whether this shard still had shrinking budget; a shrunk request is attached for the reader only."""
     for pair, c1, c2, diffs in findings:
         sig = signature(diffs)
-        small = req
-        if rec.counters.get('shrunk', 0) < 6:
+        known = classify(rec, req, pair, c1, c2, diffs)
+        kind = pair + ':' + '+'.join(sorted(set(d[0] for d in diffs)))
+        wit = {'req': req, 'pair': pair, 'legs': [c1.get('leg'), c2.get('leg')],
+               'differences': [[d[0], d[1]] for d in diffs][:4],
+               'differing_keys': sorted(set(k for d in diffs for k in d[2]))[:30],
+               'responder_exceptions': [c1.get('rexc'), c2.get('rexc')]}
+        if c1.get('kwargs') is not None:
+            wit['simulate_request_kwargs'] = c1['kwargs']
+        unknown = known is None or known not in rec.known_keys
+        if unknown and rec.counters.get('shrunk', 0) < 6:
             rec.count('shrunk')
             try:
                 small = shrink(req, pair, sig)
             except Exception:  # noqa
                 small = req
-        f2 = [f for f in run_case(None, small, report=False) if f[0] == pair] if small is not req else []
-        if f2:
-            pair, c1, c2, diffs = f2[0]
-        else:
-            small = req
-        known = classify(rec, small, pair, c1, c2, diffs)
-        kind = pair + ':' + '+'.join(sorted(set(d[0] for d in diffs)))
-        wit = {'req': small, 'pair': pair, 'legs': [c1.get('leg'), c2.get('leg')],
-               'differences': [[d[0], d[1]] for d in diffs][:4],
-               'differing_keys': sorted(set(k for d in diffs for k in d[2]))[:30]}
-        if c1.get('kwargs') is not None:
-            wit['simulate_request_kwargs'] = c1['kwargs']
-        if small is not req:
-            wit['original_req'] = req
+            if small != req:
+                wit['shrunk_req'] = small
         rec.violation(kind, wit, known_key=known)
 
 
@@ -1535,8 +1554,6 @@ def replay(rec, w):
     if wit.get('history'):
         run_history(rec, wit['history'])
         return
-    for key in ('req', 'original_req'):
-        req = wit.get(key)
-        if req:
-            one(rec, req)
+    # the request the run decided on ('original_req' in witnesses written before the decision moved to the unshrunk request)
+    one(rec, wit.get('original_req') or wit['req'])
     rec.case('replay')
